@@ -44,7 +44,20 @@ def frl(v):
 
 
 def norm2(v):
-    return math.sqrt(sum(float(t) ** 2 for t in v))
+    try:
+        return math.sqrt(sum(float(t) ** 2 for t in v))
+    except OverflowError:
+        return math.inf
+
+
+def all_finite(obj):
+    if isinstance(obj, float):
+        return math.isfinite(obj)
+    if isinstance(obj, (list, tuple)):
+        return all(all_finite(t) for t in obj)
+    if isinstance(obj, dict):
+        return all(all_finite(t) for t in obj.values())
+    return True
 
 
 # ---------------------------------------------------------------------------
@@ -300,7 +313,7 @@ def gen_step_cases(ctx, methods):
     def one(kind, name, tab, family):
         n = rng.randint(1, 4) if family.endswith('diag') else rng.randint(2, 5)
         diag = family.endswith('diag')
-        Mkind = rng.choice(['none', 'dense', 'sparse']) if kind == 'dirk' else rng.choice(['dense', 'sparse'])
+        Mkind = rng.choice(['none', 'dense', 'sparse'])
         stiff = rng.random() < 0.5
         tau = rng.choice(TAUS)
         if diag:
@@ -378,8 +391,12 @@ def check_dirk_property(case, res):
     rows = case['A']
     s = len(rows[0])
     n = case['n']
+    if res['status'] == 'Other:NoConvergenceError' and case['nl'] != 0.0:
+        return None       # Newton may legitimately fail on a nonlinear stage system; then it must raise
     if res['status'] != 'Ok':
         return ('raises-' + res['status'], 'dirk_step raised on a valid input: %s' % res.get('msg'))
+    if not all_finite(res):
+        return ('non-finite', 'dirk_step returned non-finite values')
     A = [frl(r) for r in rows]
     x = frl(case['x'])
     tau = Fr(float(case['tau']))
@@ -463,6 +480,8 @@ def check_ros_property(case, res):
     n = case['n']
     if res['status'] != 'Ok':
         return ('raises-' + res['status'], 'rosenbrock_step raised on a valid input: %s' % res.get('msg'))
+    if not all_finite(res):
+        return ('non-finite', 'rosenbrock_step returned non-finite values')
     A, G = [frl(r) for r in case['A']], [frl(r) for r in case['G']]
     s = len(A)
     b = frl(case['b'])
@@ -647,7 +666,7 @@ def qvec(v):
 def step_model_cases(case, res):
     """Coq case tuples (one per component) for a diagonal linear case, with their bounds; [] if the
     case is outside the class the forward bound covers or Newton did not iterate."""
-    if res['status'] != 'Ok' or case['nl'] != 0.0:
+    if res['status'] != 'Ok' or case['nl'] != 0.0 or not case['family'].endswith('diag') or not all_finite(res):
         return []
     n = case['n']
     out = []
@@ -681,8 +700,8 @@ def step_model_cases(case, res):
         ixn = Fr(float(res['x_new'][k]))
         ixe = None if res.get('x_est') is None else Fr(float(res['x_est'][k]))
         txt = '((%s, %s, %s, %s, %s), %s, (%s, %s), %s)' % (
-            cq(m), cq(lam), cq(g), cq(x), cq(tau), tab, cq(ixn), cq(bn),
-            'None' if ixe is None else 'Some (%s, %s)' % (cq(ixe), cq(be if be is not None else Fr(0))))
+            cq(m), cq(lam), cq(g), cq(x), cq(tau), tab, cq(ixn), cq(upf(bn)),
+            'None' if ixe is None else 'Some (%s, %s)' % (cq(ixe), cq(upf(be if be is not None else Fr(0)))))
         dev = float(abs(ixn - xn) / bn)
         out.append((fn, txt, dev))
     return out
@@ -691,6 +710,14 @@ def step_model_cases(case, res):
 # ---------------------------------------------------------------------------
 # drivers and newton: generators, Python mirrors (classification only), Coq text
 # ---------------------------------------------------------------------------
+
+def upf(fr):
+    """round a non-negative rational bound up to a short rational (keeps the Coq literals small)"""
+    f = float(fr)
+    if f == 0.0 and fr > 0:
+        f = 5e-324
+    return Fr(f) * (1 + Fr(1, 2 ** 40))
+
 
 def representable(fr):
     """is the rational exactly a binary64 (normal range, no overflow concerns for our sizes)?"""
@@ -732,7 +759,7 @@ def const_case_coq(c, r):
     slack = Fr(0) if c['exact'] else 4 * EPS * (abs(Fr(c['t0'])) + (n + 1) * abs(Fr(c['tau'])))
     return '((%s, %s, %s), %s, %s, %s)' % (cq(Fr(c['t0'])), cq(Fr(c['tau'])), cq(Fr(quot)),
                                            'None' if c['fail_at'] is None else 'Some %d%%nat' % c['fail_at'],
-                                           clist([cq(Fr(t)) for t in r['times']]), cq(slack))
+                                           clist([cq(Fr(t)) for t in r['times']]), cq(upf(slack)))
 
 
 def check_const_property(c, r):
@@ -878,7 +905,7 @@ def adaptive_case_coq(c, r):
     evs = clist(['NewtonFail' if e is None else 'Stepped %s %s' % (cq(e[0]), cq(e[1])) for e in c['mev']])
     it = 'None' if r.get('exhausted') else 'Some ' + clist([cq(Fr(t)) for t in r['times']])
     return '((%s, %s, %s), %s, %s, %s, %s)' % (cq(Fr(c['t0'])), cq(Fr(c['tau0'])), cq(Fr(c['t_end'])), evs, it,
-                                               clist([cq(Fr(t)) for t in r['taus']]), cq(c['slack']))
+                                               clist([cq(Fr(t)) for t in r['taus']]), cq(upf(c['slack'])))
 
 
 def check_adaptive_property(c, r):
@@ -915,6 +942,31 @@ def check_adaptive_property(c, r):
     return None
 
 
+def newton_mirror(c):
+    """Fractions mirror of Model.newton on F(x) = x^2 - c (classification only): returns the list of
+    residuals visited if every intermediate value is exactly representable in binary64, else None."""
+    x = Fr(c['x0'])
+    cc = Fr(c['c'])
+    res = x * x - cc
+    if not (representable(x * x) and representable(res) and representable(Fr(c['rtol']) * abs(res))):
+        return None
+    target = max(Fr(c['atol']), Fr(c['rtol']) * abs(res))
+    seen = [res]
+    jp = None
+    for it in range(c['maxiter']):
+        if abs(res) < target:
+            break
+        if it % c['freeze'] == 0:
+            jp = Fr(c['dhi']) if x >= Fr(c['thr']) else Fr(c['dlo'])
+        stp = res / jp
+        x = x - stp
+        res = x * x - cc
+        if not all(representable(v) for v in (stp, x, x * x, res)):
+            return None
+        seen.append(res)
+    return seen
+
+
 def gen_newton_exact_cases(ctx):
     rng = ctx.rng
     cases = []
@@ -926,29 +978,18 @@ def gen_newton_exact_cases(ctx):
                  dlo=rng.choice([1.0, 2.0, 4.0, -2.0]), dhi=rng.choice([2.0, 4.0, 8.0]),
                  atol=2.0 ** -rng.randint(0, 12), rtol=rng.choice([0.0, 2.0 ** -rng.randint(1, 10)]),
                  maxiter=rng.randint(0, 4), freeze=rng.randint(1, 3))
-        # mirror with representability check
-        x, ok = Fr(c['x0']), True
-        cc = Fr(c['c'])
-        res = x * x - cc
-        if not (representable(x * x) and representable(res)):
+        seen = newton_mirror(c)
+        if seen is None:
             continue
-        target = max(Fr(c['atol']), Fr(c['rtol']) * abs(res))
-        if not representable(Fr(c['rtol']) * abs(res)):
-            continue
-        jp = None
-        for it in range(c['maxiter']):
-            if abs(res) < target:
-                break
-            if it % c['freeze'] == 0:
-                jp = Fr(c['dhi']) if x >= Fr(c['thr']) else Fr(c['dlo'])
-            stp = res / jp
-            x = x - stp
-            res = x * x - cc
-            if not all(representable(v) for v in (stp, x, x * x, res)):
-                ok = False
-                break
-        if ok:
-            cases.append(c)
+        if rng.random() < 0.35:
+            # put the tolerance exactly on a residual that is visited (the test is a strict <)
+            nz = [abs(v) for v in seen if v != 0]
+            if nz:
+                c['atol'] = float(rng.choice(nz))
+                c['rtol'] = 0.0
+                if newton_mirror(c) is None:
+                    continue
+        cases.append(c)
     return cases
 
 
@@ -1016,7 +1057,7 @@ def check_newton_property(c, r):
         return ('first-eval', 'first residual evaluation is not at x0')
     if not r['x0_unchanged']:
         return ('x0-mutated', 'newton modified the caller\'s initial guess in place')
-    nrm = [norm2(exact_F(c, frl(p))) for p in pts]
+    nrm = [norm2(exact_F(c, frl(p))) if all_finite(p) else math.inf for p in pts]
     target = max(c['atol'], c['rtol'] * nrm[0])
     sl = 1e-9
     if r['raised']:
@@ -1079,6 +1120,8 @@ def check_method_property(c, r, methods):
     if r['status'] != 'Ok':
         return ('raises-' + r['status'], 'solvers.%s raised: %s' % (c['name'], r.get('msg')))
     t = r['times']
+    if not all_finite(r):
+        return ('non-finite', 'solvers.%s produced non-finite values' % c['name'])
     if len(r['sols']) != len(t):
         return ('one-state-per-time', '%d states for %d times' % (len(r['sols']), len(t)))
     if c['what'] == 'const_rhs':
@@ -1148,7 +1191,7 @@ def run_tasks(ctx, tasks, batch=150):
     return res
 
 
-def coq_family(ctx, prefix, header, fn, items, what, chunk=150):
+def coq_family(ctx, prefix, header, fn, items, what, chunk=40):
     """items: list of (case index, coq text, replay dict).  Appends one deliberately wrong copy
     of the harness's choosing is done by the caller.  Returns list of disagreeing items."""
     files, chunks = [], []
@@ -1183,7 +1226,12 @@ def run(ctx):
         'termination of the adaptive loop is not proved (no iteration cap in the code)',
         'float comparisons use bounds derived from operation counts (module docstring of harness/props/c12.py)',
     ]
+    import time as _t
+    T0 = _t.time()
+    def lap(w):
+        log('[C12] %-28s %.1fs' % (w, _t.time() - T0))
     methods = stage_tables(ctx)
+    lap('tables translated + proved')
     if methods is None:
         return ctx.finish()
     flagged = {v[0].split(':')[-1] for v in ctx.violations} | {h.split(':')[-1] for h in ctx.known_hits}
@@ -1192,6 +1240,7 @@ def run(ctx):
     # ---- one step -------------------------------------------------------
     scases, sdist = gen_step_cases(ctx, methods)
     sres = run_tasks(ctx, scases)
+    lap('step cases run on impl')
     step_items = {'dirk': [], 'ros': []}
     maxdev = 0.0
     nprop = 0
@@ -1202,7 +1251,10 @@ def run(ctx):
         bad = (check_dirk_property if c['kind'] == 'dirk' else check_ros_property)(c, r)
         if bad:
             nprop += 1
-            ctx.report('impl:%s:%s:%s' % (c['kind'], bad[0], c['method'] if c['method'] != 'user' else 'user-tableau'),
+            msig = c['method'] if c['method'] != 'user' else 'user-tableau'
+            if c['Mkind'] == 'none' and bad[0].startswith('raises-'):
+                msig = 'mass-matrix-None'       # one defect, whatever the method
+            ctx.report('impl:%s:%s:%s' % (c['kind'], bad[0], msig),
                        '%s_step, %s, M=%s, n=%d, tau=%g: %s' % (c['kind'] if c['kind'] == 'dirk' else 'rosenbrock', c['method'],
                                                                   c['Mkind'], c['n'], c['tau'], bad[1]),
                        {'case': strip(c), 'impl': r, 'how': 'harness/impl/c12_driver.py task kind %s' % c['kind']})
@@ -1234,6 +1286,7 @@ def run(ctx):
                        {'case': strip(c), 'impl': r}, found_input=bool(pb))
         ctx.cov['disagreements_checked'] += len(seen)
     ctx.cov['step_max_deviation_over_bound'] = maxdev
+    lap('step ties in Coq')
 
     # ---- drivers and newton ---------------------------------------------
     ccases = gen_const_cases(ctx)
@@ -1243,7 +1296,9 @@ def run(ctx):
     skip = set(flagged)
     mcases = gen_method_cases(ctx, methods, skip)
     allc = ccases + acases + ncases + gcases + mcases
+    lap('driver cases generated')
     allr = run_tasks(ctx, allc)
+    lap('driver cases run on impl')
     o = 0
     cres = allr[o:o + len(ccases)]; o += len(ccases)
     ares = allr[o:o + len(acases)]; o += len(acases)
@@ -1289,6 +1344,7 @@ def run(ctx):
             ctx.report(sig, text, {'case': strip(cs[k]), 'impl': rs[k]}, found_input=True)
         ctx.cov['disagreements_checked'] += len(bad)
 
+    lap('driver ties in Coq')
     # self-test of the differ: a perturbed implementation answer must be flagged
     st_items = []
     c0 = next((k for k, (c, r) in enumerate(zip(ccases, cres)) if r['status'] == 'Ok' and len(r['times']) > 2), None)
@@ -1361,3 +1417,38 @@ META = {
                   'correspondence run), harness generators and derived float bounds, numpy/scipy linear solves (only their '
                   'residuals are checked).',
 }
+
+
+def replay(ctx, data):
+    """./check C12 --replay evidence/replay/C12-n.json : re-evaluate the recorded input on the
+    current implementation with the same oracle."""
+    rp = data.get('replay', {})
+    sig = data.get('signature', '')
+    if sig.startswith('tableau:') or sig.startswith('tie:table') or 'case' not in rp:
+        methods = stage_tables(ctx)
+        if methods is not None:
+            tie_tables(ctx, methods)
+        return ctx.finish()
+    c = rp['case']
+    methods = None
+    if c['kind'] == 'method':
+        methods = TT.translate(os.path.join(REPO, 'pyiga', 'solvers.py'))
+    r = ctx.impl.run(DRIVER, {'tasks': [c]})['results'][0]
+    c.setdefault('what', 'const_rhs' if c.get('tol') is None else 'adaptive')
+    c.setdefault('nst', None)
+    if c['kind'] == 'method' and c['what'] == 'const_rhs':
+        c['nst'] = int(round((c['t_end'] - c['t0']) / c['tau']))
+    if c['kind'] == 'adaptive':
+        xa = np.array(c['x0'], dtype=float)
+        c['mev'] = [None if e.get('fail') else tuple(Fr(v) for v in np_r_and_praw(xa, e['diff'], c['tol'], c['step_factor'], c['err_order']))
+                    for e in c['events']]
+    checker = {'dirk': check_dirk_property, 'ros': check_ros_property, 'const': check_const_property,
+               'adaptive': check_adaptive_property, 'newton': check_newton_property,
+               'method': lambda cc, rr: check_method_property(cc, rr, methods)}.get(c['kind'])
+    bad = checker(c, r) if checker else None
+    ctx.count(('replay', sig))
+    if bad:
+        ctx.report(sig, 'replayed: ' + bad[1], {'case': strip(c), 'impl': r})
+    else:
+        log('[C12] replay of %s: the property holds on this input now' % sig)
+    return ctx.finish()
